@@ -431,6 +431,8 @@ pub struct Rebuild {
     pub freeze: Vec<Option<bool>>,
     /// parameters replaced by a new tracked array of the same dimensions
     pub edits: Vec<(usize, T<f64>)>,
+    /// parameters restored from a checkpoint: clones of the parameter handles taken before the first iteration
+    pub restores: Vec<usize>,
 }
 impl Iteration {
     pub fn plain(input: T<f64>, target: T<f64>, double_backward: bool) -> Iteration {
@@ -464,6 +466,9 @@ pub fn train_spied(spec: &NetSpec, params: &[T<f64>], iterations: &[Iteration], 
         let mut losses = vec![];
         let mut outputs = vec![];
         let mut output_tracked = vec![];
+        // a checkpoint (handle clones, as `p.clone()` in user code) is kept only by histories that restore from it
+        let wants_checkpoint = iterations.iter().any(|it| it.rebuild.as_ref().map(|rb| !rb.restores.is_empty()).unwrap_or(false));
+        let checkpoint: Vec<Array> = if wants_checkpoint { spies.iter_mut().flat_map(|s| s.parameters()).map(|p| (*p).clone()).collect() } else { vec![] };
         let mut i = 0;
         while i < iterations.len() {
             if let Some(rb) = &iterations[i].rebuild {
@@ -481,6 +486,9 @@ pub fn train_spied(spec: &NetSpec, params: &[T<f64>], iterations: &[Iteration], 
                         }
                         if let Some((_, t)) = rb.edits.iter().find(|(j, _)| *j == k) {
                             *p = arr_t(t).tracked();
+                        }
+                        if rb.restores.contains(&k) {
+                            *p = checkpoint[k].clone();
                         }
                         k += 1;
                     }
